@@ -63,32 +63,32 @@ func (s State) hash() uint64 {
 
 // Runner executes one case.
 type Runner struct {
-	C        *Case
-	Root     string
-	FS       *vos.FS
-	DB       *kv.DB
-	Cfg      Config
-	M        State
-	Ever     map[string]bool
-	Written  map[string]map[string]bool // every value ever handed to Put / Batch.Put for a key (even if superseded inside its batch)
-	States   []State // States[j] = model after j acknowledged mutations
-	MutOp    []int   // MutOp[j] = index of the operation that was the j-th mutation (MutOp[0] = -1)
-	V        *Violation
+	C         *Case
+	Root      string
+	FS        *vos.FS
+	DB        *kv.DB
+	Cfg       Config
+	M         State
+	Ever      map[string]bool
+	Written   map[string]map[string]bool // every value ever handed to Put / Batch.Put for a key (even if superseded inside its batch)
+	States    []State                    // States[j] = model after j acknowledged mutations
+	MutOp     []int                      // MutOp[j] = index of the operation that was the j-th mutation (MutOp[0] = -1)
+	V         *Violation
 	KnownHits []KnownHit
-	Aborted  string
-	Infra    string
-	Cnt      map[string]int64
-	Traces   []uint64
-	StateHs  []uint64
-	step     int
-	judging  bool // the step in progress is one the property judges
-	restarts int
-	Executed []Op
-	gen      func(r *Runner, i int) *Op // adaptive generator (nil when replaying a recorded case)
-	rng      *vrt.Rand
-	clock0   int64
-	trans    []string // transcript (C14)
-	extra    map[string]interface{}
+	Aborted   string
+	Infra     string
+	Cnt       map[string]int64
+	Traces    []uint64
+	StateHs   []uint64
+	step      int
+	judging   bool // the step in progress is one the property judges
+	restarts  int
+	Executed  []Op
+	gen       func(r *Runner, i int) *Op // adaptive generator (nil when replaying a recorded case)
+	rng       *vrt.Rand
+	clock0    int64
+	trans     []string // transcript (C14)
+	extra     map[string]interface{}
 }
 
 func NewRunner(c *Case) *Runner {
@@ -167,9 +167,9 @@ func (r *Runner) wrote(key, val []byte) {
 	r.Ever[string(key)] = true
 }
 
-func (r *Runner) inc(name string)            { r.Cnt[name]++ }
-func (r *Runner) add(name string, n int64)   { r.Cnt[name] += n }
-func (r *Runner) violated() bool             { return r.V != nil || r.Aborted != "" || r.Infra != "" }
+func (r *Runner) inc(name string)          { r.Cnt[name]++ }
+func (r *Runner) add(name string, n int64) { r.Cnt[name] += n }
+func (r *Runner) violated() bool           { return r.V != nil || r.Aborted != "" || r.Infra != "" }
 func (r *Runner) note(format string, a ...interface{}) {
 	if r.C.Prop == "C14" {
 		r.trans = append(r.trans, fmt.Sprintf(format, a...))
